@@ -56,8 +56,12 @@ def ty_coq(t):
         return "(nd F)"
     if t == "LAM":
         return "L"
+    if t == "MAT":
+        return "M"
     if isinstance(t, tuple) and t[0] == "record":
-        return "(%s F L)" % t[1]
+        return t[4] if len(t) > 4 else "(%s F L)" % t[1]
+    if isinstance(t, tuple) and t[0] == "dict":
+        return "(list (Z * %s))" % ty_coq(t[1])
     if t == "unit":
         return "unit"
     if isinstance(t, tuple) and t[0] == "list":
@@ -120,11 +124,16 @@ class Fn:
                 return [], ("true" if e.value else "false"), "bool"
             if isinstance(e.value, int):
                 return [], "(%d)" % e.value, "int"
+            if isinstance(e.value, float) and "flit" in self.externs:
+                # a float literal: named by its shortest round-trip decimal form (interpreted by the instance)
+                return [], '(flit "%s")' % repr(e.value), "F"
             raise Unsupported("constant %r" % (e.value,))
         if isinstance(e, ast.Name):
             if e.id not in env:
                 raise Unsupported("unknown name %s" % e.id)
             return [], cname(e.id), env[e.id]
+        if isinstance(e, ast.Dict) and not e.keys:
+            return [], "[]", ("dict", None)
         if isinstance(e, ast.Attribute):
             b, c, t = self.expr(e.value, env)
             if isinstance(t, tuple) and t[0] == "record" and e.attr in t[2]:
@@ -276,8 +285,19 @@ class Fn:
             if t == "arr2" and isinstance(e.slice, ast.Constant) and e.slice.value in (0, 1):
                 return b, "(%s %s)" % ("a_rows" if e.slice.value == 0 else "a_cols", c), "int"
             raise Unsupported("shape of %s" % (t,))
+        if isinstance(e.value, ast.Call) and ast.unparse(e.value.func) == "np.linalg.slogdet" and "slogdet_logabs" in self.externs \
+                and isinstance(e.slice, ast.Constant) and e.slice.value == 1 and len(e.value.args) == 1 and not e.value.keywords:
+            b, c, t = self.expr(e.value.args[0], env)
+            if t == "MAT":
+                return b, "(np_slogdet_logabs %s)" % c, "F"
         b, c, t = self.expr(e.value, env)
         sl = e.slice
+        if isinstance(t, tuple) and t[0] == "dict" and not isinstance(sl, (ast.Slice, ast.Tuple)):
+            bi, ci, ti = self.expr(sl, env)
+            if ti != "int" or t[1] is None:
+                raise Unsupported("dictionary lookup %s" % ast.unparse(e))
+            v = self.fresh()
+            return b + bi + [(v, "py_dict_get %s %s" % (c, ci))], v, t[1]
         if t in ("arr2", "arr2u16") and isinstance(sl, ast.Tuple) and len(sl.elts) == 2 \
                 and not isinstance(sl.elts[0], ast.Slice) and not isinstance(sl.elts[1], ast.Slice):
             # a[i, j]
@@ -353,6 +373,25 @@ class Fn:
                 v = self.fresh()
                 return pre + [(v, app)], v, rt
             return pre, "(%s)" % app, rt
+        if fn == "np.trace" and "trace_dot" in self.externs and len(e.args) == 1 and not e.keywords and isinstance(e.args[0], ast.Call) \
+                and ast.unparse(e.args[0].func) == "np.dot" and len(e.args[0].args) == 2 and not e.args[0].keywords:
+            b1, c1, t1 = self.expr(e.args[0].args[0], env)
+            b2, c2, t2 = self.expr(e.args[0].args[1], env)
+            if t1 == "MAT" and t2 == "MAT":
+                return b1 + b2, "(np_trace_dot %s %s)" % (c1, c2), "F"
+        if fn == "np.sum" and "count_above" in self.externs and len(e.args) == 1 and not e.keywords and isinstance(e.args[0], ast.Compare) \
+                and len(e.args[0].ops) == 1 and isinstance(e.args[0].ops[0], ast.Gt) and isinstance(e.args[0].left, ast.Call) \
+                and ast.unparse(e.args[0].left.func) == "np.abs" and len(e.args[0].left.args) == 1:
+            b1, c1, t1 = self.expr(e.args[0].left.args[0], env)
+            b2, c2, t2 = self.expr(e.args[0].comparators[0], env)
+            if t1 == "MAT" and t2 == "F":
+                return b1 + b2, "(np_count_above %s %s)" % (c1, c2), "int"
+        if fn == "np.log" and "flog" in self.externs and len(e.args) == 1 and not e.keywords:
+            b, c, t = self.expr(e.args[0], env)
+            if t == "int":
+                return b, "(np_log (of_int %s))" % c, "F"
+            if t == "F":
+                return b, "(np_log %s)" % c, "F"
         if fn == "np.sum" and len(e.args) == 1 and not e.keywords:
             b, c, t = self.expr(e.args[0], env)
             if t == ("list", "F"):
@@ -455,6 +494,8 @@ class Fn:
                             add(x.id)
                     else:
                         raise Unsupported("assignment target %s" % ast.unparse(t))
+            elif isinstance(s, ast.AugAssign) and isinstance(s.target, ast.Name):
+                add(s.target.id)
             elif isinstance(s, ast.Expr) and isinstance(s.value, ast.Call) and isinstance(s.value.func, ast.Attribute) \
                     and isinstance(s.value.func.value, ast.Name) and s.value.func.attr in ("append", "pop"):
                 add(s.value.func.value.id)
@@ -511,10 +552,27 @@ class Fn:
             if t != "bool":
                 raise Unsupported("assert on %s" % (t,))
             return self.wrap(b, 'if %s then\n  %s\n  else Raise "AssertionError"%%string' % (c, nxt(env)))
+        if isinstance(s, ast.AugAssign) and isinstance(s.target, ast.Name) and isinstance(s.op, (ast.Add, ast.Sub, ast.Mult)):
+            # x op= e  is  x = x op e  for the immutable values (int, float) this applies to
+            if env.get(s.target.id) not in ("int", "F"):
+                raise Unsupported("augmented assignment to a %s" % (env.get(s.target.id),))
+            s2 = ast.Assign(targets=[ast.Name(id=s.target.id, ctx=ast.Store())],
+                            value=ast.BinOp(left=ast.Name(id=s.target.id, ctx=ast.Load()), op=s.op, right=s.value))
+            return self.block([s2] + rest, env, k)
         if isinstance(s, ast.Assign):
             if len(s.targets) != 1:
                 raise Unsupported("multiple assignment")
             tgt = s.targets[0]
+            if isinstance(tgt, ast.Subscript) and isinstance(tgt.value, ast.Name) and isinstance(env.get(tgt.value.id), tuple) \
+                    and env[tgt.value.id][0] == "dict" and not isinstance(tgt.slice, (ast.Slice, ast.Tuple)):
+                a = tgt.value.id
+                bi, ci, ti = self.expr(tgt.slice, env)
+                bv, cv, tv = self.expr(s.value, env)
+                if ti != "int" or (env[a][1] is not None and repr(env[a][1]) != repr(tv)):
+                    raise Unsupported("dictionary store %s" % ast.unparse(s))
+                env2 = dict(env)
+                env2[a] = ("dict", tv)
+                return self.wrap(bi + bv, "let %s := (py_dict_set %s %s %s) in\n  %s" % (cname(a), cname(a), ci, cv, nxt(env2)))
             if isinstance(tgt, ast.Name):
                 b, c, t = self.expr(s.value, env)
                 env2 = dict(env)
@@ -675,21 +733,32 @@ class Fn:
                 return "Ret %s" % spat[0]
             body = self.block(s.body, env_body, kend)
             env2 = dict(env)
+            init = {n: cname(n) for n in state}
             for n in state:
                 for e2 in out_envs:
-                    if env[n] == ("list", None):
+                    if env[n] in (("list", None), ("dict", None)):
                         env2[n] = e2[n]
+                    elif env[n] == "int" and e2[n] == "F":
+                        # an int accumulator that meets floats in the loop: the initial value converts exactly
+                        env2[n] = "F"
+                        init[n] = "(of_int %s)" % cname(n)
                     elif repr(e2[n]) != repr(env[n]):
                         raise Unsupported("loop changes the type of %s" % n)
-            if any(env[n] == ("list", None) for n in state):
-                # translate the body again with the element type known (types only steer operator choice)
+            if any(repr(env[n]) != repr(env2[n]) for n in state):
+                # translate the body again with the types known (types only steer operator choice)
                 out_envs.clear()
                 env_body2 = dict(env_body)
                 for n in state:
                     env_body2[n] = env2[n]
                 body = self.block(s.body, env_body2, kend)
+                for n in state:
+                    for e2 in out_envs:
+                        if repr(e2[n]) != repr(env2[n]):
+                            raise Unsupported("loop changes the type of %s" % n)
+            init_code = spat[0] if all(init[n] == cname(n) for n in state) else \
+                (init[state[0]] if len(state) == 1 else "(" + ", ".join(init[n] for n in state) + ")")
             return self.wrap(b, "%s <- foldM (fun %s %s =>\n  %s) %s %s ;;\n  %s" % (
-                spat[1], spat[1] if spat[1] != "_" else "_", pat, body, it, spat[0], nxt(env2)))
+                spat[1], spat[1] if spat[1] != "_" else "_", pat, body, it, init_code, nxt(env2)))
         raise Unsupported("statement %s" % type(s).__name__)
 
     @staticmethod
@@ -754,6 +823,14 @@ TARGETS = {
                                             {"window_size": "int", "num_data_series": "int", "rho": "F", "sparsity_weight": "LAM"}, "aa_"),
                 ("admm_update_z", "u"): ("list", "F"), ("admm_update_z", "x"): ("list", "F"),
                 ("admm_update_z", "return"): ("list", "F")}),
+    "cluster_metrics": ("cluster_metrics.py", ["bayesian_information_criterion"],
+                        {("bayesian_information_criterion", "model"):
+                         ("record", "bic_model",
+                          {"arguments": ("record", "bic_args", {"num_clusters": "int"}, "ba_", "bic_args"),
+                           "clusters": ("list", ("record", "bic_cluster", {"train_inverse": "MAT", "empirical_covariance": "MAT"},
+                                                 "bc_", "(bic_cluster M)")),
+                           "point_labels": ("list", "int")}, "bm_", "(bic_model M)"),
+                         ("bayesian_information_criterion", "return"): "F"}),
 }
 # per kernel module: extra imports, extra section variables, and calls rendered as section variables / imported definitions
 KERNEL_MODULES = {
@@ -768,6 +845,15 @@ KERNEL_MODULES = {
             "compute_lambda_sum": (["LAM", "int", "int", "int", "int", "int"], "F", "compute_lambda_sum", True),
             "unique_values.locations_compressed": (["int"] * 5, ("list", "int"), "g_locations_compressed", True),
         }},
+    "cluster_metrics": {
+        "imports": "",
+        "vars": ("  Variable M : Type.                            (* 2-D float64 matrices (opaque) *)\n"
+                 "  Variable flit : string -> F.                  (* a float literal, named by its decimal text *)\n"
+                 "  Variable np_log : F -> F.                       (* np.log *)\n"
+                 "  Variable np_slogdet_logabs : M -> F.             (* np.linalg.slogdet(.)[1] *)\n"
+                 "  Variable np_trace_dot : M -> M -> F.             (* np.trace(np.dot(., .)) *)\n"
+                 "  Variable np_count_above : M -> F -> Z.           (* np.sum(np.abs(.) > t) *)\n"),
+        "externs": {k: ([], None, k, False) for k in ("flit", "flog", "slogdet_logabs", "trace_dot", "count_above")}},
 }
 
 HEADER = """(* GENERATED by vcheck/py2coq.py from %(src)s - do not edit.
